@@ -1,0 +1,208 @@
+//! Verification hook H3/H4 (compiled only with `--cfg chalk_verif`).
+//!
+//! Drives the *generic* fixed-point engine `RecursiveContext<K, V>` with `K = usize`
+//! (a node of a ground and-or graph) and `V = Val` (three-valued), with a scripted
+//! `should_continue` callback and scripted panics at the engine's callback points, and
+//! exposes the cache / stack / search-graph state after each root solve.  Nothing here
+//! is used by the solver itself.
+
+use super::{Cache, Minimums, RecursiveContext, SolverStuff};
+use std::cell::Cell;
+
+thread_local! {
+    static WORK: Cell<u64> = Cell::new(0);
+}
+
+/// H4: number of `RecursiveContext::solve_goal` calls made on this thread.
+pub fn work() -> u64 {
+    WORK.with(|w| w.get())
+}
+
+pub fn reset_work() {
+    WORK.with(|w| w.set(0))
+}
+
+pub(super) fn count_work() {
+    WORK.with(|w| w.set(w.get() + 1))
+}
+
+#[derive(Copy, Clone, Debug, PartialEq, Eq, Hash)]
+pub enum Val {
+    Yes,
+    No,
+    Amb,
+}
+
+/// One clause: subgoals in evaluation order, and whether the clause can at best be
+/// ambiguous (stands for truncation / floundering).
+#[derive(Clone, Debug)]
+pub struct Clause {
+    pub subgoals: Vec<usize>,
+    pub ambiguous: bool,
+}
+
+#[derive(Clone, Debug)]
+pub struct Node {
+    pub coinductive: bool,
+    pub clauses: Vec<Clause>,
+}
+
+pub const INJECTED_PANIC: &str = "chalk_verif: injected panic";
+
+struct Script {
+    graph: Vec<Node>,
+    /// invocation indices at which `should_continue` answers `false`
+    stop_at: Vec<usize>,
+    /// callback points at which a panic is injected
+    panic_at: Vec<usize>,
+    ticks: Cell<usize>,
+    continue_calls: Cell<usize>,
+    iterations: Cell<usize>,
+}
+
+impl Script {
+    fn tick(&self) {
+        let t = self.ticks.get();
+        self.ticks.set(t + 1);
+        if self.panic_at.contains(&t) {
+            panic!("{}", INJECTED_PANIC);
+        }
+    }
+
+    fn should_continue(&self) -> bool {
+        let i = self.continue_calls.get();
+        self.continue_calls.set(i + 1);
+        !self.stop_at.contains(&i)
+    }
+}
+
+impl<'a> SolverStuff<usize, Val> for &'a Script {
+    fn is_coinductive_goal(self, goal: &usize) -> bool {
+        self.tick();
+        self.graph[*goal].coinductive
+    }
+
+    fn initial_value(self, _goal: &usize, coinductive_goal: bool) -> Val {
+        self.tick();
+        if coinductive_goal {
+            Val::Yes
+        } else {
+            Val::No
+        }
+    }
+
+    fn solve_iteration(
+        self,
+        context: &mut RecursiveContext<usize, Val>,
+        goal: &usize,
+        minimums: &mut Minimums,
+        should_continue: impl std::ops::Fn() -> bool + Clone,
+    ) -> Val {
+        self.iterations.set(self.iterations.get() + 1);
+        self.tick();
+        if !should_continue() {
+            return Val::Amb;
+        }
+        let mut cur: Option<Val> = None;
+        for clause in &self.graph[*goal].clauses {
+            let mut result = if clause.ambiguous { Val::Amb } else { Val::Yes };
+            for subgoal in &clause.subgoals {
+                match context.solve_goal(subgoal, minimums, self, should_continue.clone()) {
+                    Val::No => {
+                        result = Val::No;
+                        break;
+                    }
+                    Val::Amb => result = Val::Amb,
+                    Val::Yes => {}
+                }
+            }
+            cur = match (result, cur) {
+                (Val::No, cur) => cur,
+                (Val::Yes, _) => Some(Val::Yes),
+                (Val::Amb, Some(Val::Yes)) => Some(Val::Yes),
+                (Val::Amb, _) => Some(Val::Amb),
+            };
+            if cur == Some(Val::Yes) {
+                break;
+            }
+        }
+        cur.unwrap_or(Val::No)
+    }
+
+    fn reached_fixed_point(self, old_value: &Val, new_value: &Val) -> bool {
+        self.tick();
+        old_value == new_value || *new_value == Val::Amb
+    }
+
+    fn error_value(self) -> Val {
+        self.tick();
+        Val::No
+    }
+}
+
+/// What can be observed of the engine between root solves.
+#[derive(Clone, Debug, PartialEq, Eq)]
+pub struct Dump {
+    /// cache entry of every node of the graph
+    pub cache: Vec<Option<Val>>,
+    pub stack_len: usize,
+    pub search_graph_len: usize,
+    pub iterations: usize,
+    pub ticks: usize,
+    pub continue_calls: usize,
+}
+
+pub struct Driver {
+    ctx: RecursiveContext<usize, Val>,
+    cache: Option<Cache<usize, Val>>,
+    script: Script,
+}
+
+impl Driver {
+    pub fn new(
+        graph: Vec<Node>,
+        overflow_depth: usize,
+        caching_enabled: bool,
+        stop_at: Vec<usize>,
+        panic_at: Vec<usize>,
+    ) -> Self {
+        let cache = if caching_enabled {
+            Some(Cache::new())
+        } else {
+            None
+        };
+        Driver {
+            ctx: RecursiveContext::new(overflow_depth, 0, cache.clone()),
+            cache,
+            script: Script {
+                graph,
+                stop_at,
+                panic_at,
+                ticks: Cell::new(0),
+                continue_calls: Cell::new(0),
+                iterations: Cell::new(0),
+            },
+        }
+    }
+
+    /// `RecursiveContext::solve_root_goal`; unwinds on an injected panic or an engine
+    /// assertion (the caller is expected to catch it and keep using the driver).
+    pub fn solve_root(&mut self, goal: usize) -> Val {
+        let script = &self.script;
+        self.ctx
+            .solve_root_goal(&goal, script, || script.should_continue())
+    }
+
+    pub fn dump(&self) -> Dump {
+        Dump {
+            cache: (0..self.script.graph.len())
+                .map(|g| self.cache.as_ref().and_then(|c| c.get(&g)))
+                .collect(),
+            stack_len: self.ctx.stack.verif_len(),
+            search_graph_len: self.ctx.search_graph.verif_len(),
+            iterations: self.script.iterations.get(),
+            ticks: self.script.ticks.get(),
+            continue_calls: self.script.continue_calls.get(),
+        }
+    }
+}
